@@ -42,6 +42,7 @@ CODES = {
     104: 'after everything finished a fresh request failed or hung (shards cannot be loaded again)',
     105: 'a request returned an error other than the clean "already closed" one',
     111: 'a shard-manager call (DoWithShard / DeleteCollectionShards) panicked under the schedule; in the server such a call runs on a plain goroutine and the process dies',
+    112: 'the process died while a forced schedule ran (a panic or fatal error of the code under test on a goroutine of its own, e.g. the cleanup routine)',
     107: 'a real request handler (insert / update / delete / search / shard info) did not return when the idle timer of its shard fired while it was inside its callback',
     108: 'a real request handler returned an error when the idle timer of its shard fired while it was inside its callback',
     109: 'after such a request the cleanup routine did not finish (the shard was not unloaded)',
